@@ -367,6 +367,53 @@ func ruleC09SyncBeforeClose(r *Run, p *Program, rule string) {
 	}
 }
 
+// ruleSyncErrorFatal: a failed File.Sync on the way through DB.Close / DB.Sync makes the operation fail. Close's nil
+// tells the caller the database is a durable checkpoint; a flush error that is overwritten, merged away or dropped
+// lets Close remove the lock file over data that never reached the disk.
+func ruleSyncErrorFatal(r *Run, p *Program, rule string) {
+	n := 0
+	for _, ek := range []string{"(*pogreb.DB).Close", "(*pogreb.DB).Sync"} {
+		f := p.Fn(ek)
+		if !r.anchor(rule, ek, f != nil) {
+			continue
+		}
+		r.fn(ek)
+		all, root := allNodes(p, f)
+		var syncs []Node
+		for nd := range all.Reached {
+			if e := fsEventOf(nd); isFileEvent(e, "Sync") {
+				if _, isCall := nd.In.(*ssa.Call); isCall {
+					syncs = append(syncs, nd)
+				}
+			}
+		}
+		sort.Slice(syncs, func(i, j int) bool { return syncs[i].In.Pos() < syncs[j].In.Pos() })
+		seen := map[string]bool{}
+		for _, s := range syncs {
+			construct := ek + "->" + funcKey(s.Ctx.Fn) + ":Sync(" + fsEventOf(s).Recv.String() + ")"
+			if seen[construct] {
+				continue
+			}
+			seen[construct] = true
+			n++
+			w := &IPWalk{P: p, StartFailed: true}
+			w.Run(root, []Node{s})
+			bad := false
+			for nd := range w.Reached {
+				if w.rootSuccess(nd) {
+					bad = true
+					r.bad(rule, construct, p.Pos(instrPos(s.In)), ek+" can return nil although this File.Sync failed: the flush error is overwritten or dropped on the way up, the caller is told the data is durable (and Close removes the lock file) while it never reached the disk", w.PathTo(nd)...)
+					break
+				}
+			}
+			if !bad {
+				r.ok(rule, construct, p.Pos(instrPos(s.In)), "when this File.Sync fails "+ek+" cannot return nil", true)
+			}
+		}
+	}
+	r.universe(rule, n, 3)
+}
+
 // ruleC09CommitLast: the lock file is released after everything else; required steps all happen before it.
 func ruleCloseOrder(r *Run, p *Program, rule string) {
 	f := p.Fn("(*pogreb.DB).Close")
